@@ -109,7 +109,7 @@ pub fn vx_update_max_buffering_delays(min_buffer_delay_us: u64, cur: u64, ecu: &
 // 2^61 us (R11; it is 1000 s or one of the observed buffering delays, which are at most a reception time).
 #[verifier::external_body]
 pub fn vx_window_max() -> (r: u64) ensures r <= 0x2000_0000_0000_0000 { unimplemented!() }
-//@ extract src/utils/mod.rs region `if recalc_max_buffer_time_us {` .. `$end` in fn buffer_sort_messages
+//@ extract src/utils/mod.rs region `>>if recalc_buffering_delay {` .. `$end` in fn buffer_sort_messages
 //@   sig pub fn threshold_result(recalc_max_buffer_time_us: bool, min_buffer_delay_us: u64, max_buffer_time_us: u64) -> (r: u64)
 //@   sub R11 `{ let x = max_buffering_delays __ }` => `vx_window_max()`
 //@   spec
